@@ -122,6 +122,13 @@ func runC03(r *mc.Run) {
 
 	// (b) Engine A menu
 	tcbByInter := world.MakeCert(world.CertSpec{CN: world.CNTcb, Key: world.NewKey("T/tcb-by-inter")}, w.PKI.Inter, w.PKI.InterKey)
+	fRoot := func(nbDays, naDays int) *x509.Certificate {
+		return world.MakeCert(world.CertSpec{CN: world.CNRoot, IsCA: true, Key: F.RootKey, MaxPathLen: 1, NotBefore: world.T0.AddDate(0, 0, nbDays), NotAfter: world.T0.AddDate(0, 0, naDays)}, nil, F.RootKey)
+	}
+	fTcbUnder := func(root *x509.Certificate, nbDays, naDays int) *x509.Certificate {
+		return world.MakeCert(world.CertSpec{CN: world.CNTcb, Key: F.TcbKey, NotBefore: world.T0.AddDate(0, 0, nbDays), NotAfter: world.T0.AddDate(0, 0, naDays)}, root, F.RootKey)
+	}
+	fTcb := func(nbDays, naDays int) *x509.Certificate { return fTcbUnder(F.Root, nbDays, naDays) }
 	signers := []struct {
 		name string
 		key  *world.Key
@@ -145,6 +152,13 @@ func runC03(r *mc.Run) {
 		{"[clone.tcb,root]", []*x509.Certificate{Fc.Tcb, w.PKI.Root}},
 		{"[tcb-by-inter,inter]", []*x509.Certificate{tcbByInter, w.PKI.Inter}},
 		{"[tcb-by-inter,root]", []*x509.Certificate{tcbByInter, w.PKI.Root}},
+		// foreign chains whose certificates are outside their validity period at the verification time (a
+		// validity error must not stand in for the missing link to the trusted roots)
+		{"F[tcb-not-yet-valid,root]", []*x509.Certificate{fTcb(1, 3650), F.Root}},
+		{"F[tcb-expired,root]", []*x509.Certificate{fTcb(-3650, -1), F.Root}},
+		{"F[tcb-not-yet-valid,root-not-yet-valid]", []*x509.Certificate{fTcbUnder(fRoot(1, 3650), 1, 3650), fRoot(1, 3650)}},
+		{"F[tcb,root-expired]", []*x509.Certificate{fTcbUnder(fRoot(-3650, -1), -30, 3650), fRoot(-3650, -1)}},
+		{"[F.tcb-not-yet-valid,root]", []*x509.Certificate{fTcb(1, 3650), w.PKI.Root}},
 	}
 	bound := 2
 	if r.Thorough() {
